@@ -729,5 +729,542 @@ theorem step_main {P : Params} {vals : List (Option Int)} {tr : Train} {d : Disk
     rw [opsOf, List.take_append, List.take_of_length_le (by omega), exec_append]
     exact after_row hrec hk hs hsep cl' hcl _
 
+theorem plan_of_safe {P : Params} {vals : List (Option Int)} {k : Nat} (hs : SafeAt P vals k) {d : Disk}
+    {s : Nat × Nat} {main : List FsOp} {cl : List Path}
+    (h : planUpdate Quirks.fixed P vals k d s = .ok (main, cl)) :
+    main = saveOps P d (k + 1) s ++ histOps Quirks.fixed d (k + 1) ∧ cl = cleanSet P vals k d := by
+  rw [plan_safe hs] at h
+  injection h with h
+  injection h with h1 h2
+  exact ⟨h1.symm, h2.symm⟩
+
+/-! ## a `torch.save` that stops half-way -/
+
+theorem prot_not_tmp {P : Params} {k b : Nat} {q : Path} (hq : Prot P k b q) (t : Nat) : q ≠ .tmp t := by
+  simp only [Prot, List.mem_append, mem_epochPaths] at hq
+  rcases hq with ⟨_, hq | hq⟩ | ⟨_, hq | hq⟩ <;> subst hq <;> simp [Params.mpath, Params.opath]
+
+theorem RecAt_write_tmp {P : Params} {vals : List (Option Int)} {tr : Train} {d : Disk} {k : Nat}
+    (h : RecAt P vals tr d k) (t : Nat) (c : Content) : RecAt P vals tr (exec1 d (.write t c)) k := by
+  have := RecAt_frame h [.write t c] (by
+    intro op hop
+    simp only [List.mem_cons, List.not_mem_nil, or_false] at hop
+    subst hop
+    exact ⟨fun h => h, fun q hq ht => prot_not_tmp hq t ht⟩)
+  exact this
+
+theorem tearW_some {op op' : FsOp} (h : tearW op = some op') : ∃ t, op' = .write t .torn := by
+  cases op <;> simp [tearW] at h
+  exact ⟨_, h.symm⟩
+
+theorem tornDisk_tearW (d : Disk) (ops : List FsOp) (i : Nat) :
+    tornDisk tearW d ops i = exec d (ops.take i) ∨
+      ∃ t, tornDisk tearW d ops i = exec1 (exec d (ops.take i)) (.write t .torn) := by
+  unfold tornDisk
+  cases h : (ops[i]?).bind tearW with
+  | none => exact Or.inl rfl
+  | some op' =>
+    rw [Option.bind_eq_some_iff] at h
+    obtain ⟨op, _, h⟩ := h
+    obtain ⟨t, rfl⟩ := tearW_some h
+    exact Or.inr ⟨t, rfl⟩
+
+theorem RecAt_tornW {P : Params} {vals : List (Option Int)} {tr : Train} {d : Disk} {k : Nat}
+    {ops : List FsOp} {i : Nat} (h : RecAt P vals tr (exec d (ops.take i)) k) :
+    RecAt P vals tr (tornDisk tearW d ops i) k := by
+  rcases tornDisk_tearW d ops i with h' | ⟨t, h'⟩ <;> rw [h']
+  · exact h
+  · exact RecAt_write_tmp h t _
+
+/-! ## exact directory contents after a complete crash-free update -/
+
+theorem exec_removes_get (d : Disk) (cl : List Path) (q : Path) :
+    (exec d (cl.map FsOp.remove)).files.get q = if q ∈ cl then none else d.files.get q := by
+  induction cl generalizing d with
+  | nil => simp [exec_nil]
+  | cons p cl ih =>
+    rw [List.map_cons, exec_cons, ih]
+    simp only [exec1, Files.get_del, List.mem_cons]
+    by_cases h1 : q ∈ cl
+    · simp [h1]
+    · by_cases h2 : q = p
+      · simp [h2]
+      · simp [h1, h2]
+
+theorem exec_removes_csv (d : Disk) (cl : List Path) : (exec d (cl.map FsOp.remove)).csv = d.csv := by
+  induction cl generalizing d with
+  | nil => rfl
+  | cons p cl ih => rw [List.map_cons, exec_cons, ih]; rfl
+
+theorem exact_step {P : Params} (hi : Inj P) (hkeep : P.keepLB = true) {vals : List (Option Int)}
+    {tr : Train} {d : Disk} {k : Nat} (hex : ExactLB P vals d k) (hk : k < vals.length)
+    {main : List FsOp} {cl : List Path}
+    (hplan : planUpdate Quirks.fixed P vals k d (U tr (k + 1)) = .ok (main, cl))
+    (cl' : List Path) (hcl : ∀ p, p ∈ cl' ↔ p ∈ cl) :
+    ExactLB P vals (exec d (opsOf main cl')) (k + 1) := by
+  obtain ⟨hmain, hclq⟩ := plan_of_safe (hi.safeAt vals k) hplan
+  subst hmain
+  subst hclq
+  have hb := bestOf_take_le vals k
+  have hcb := bestOf_take_succ vals k hk
+  intro q
+  have hmem := mem_cleanSet_iff P vals k d q
+  have hexq := hex q
+  rw [← hcl q] at hmem
+  have hfin : (exec d (opsOf (saveOps P d (k + 1) (U tr (k + 1)) ++ histOps Quirks.fixed d (k + 1)) cl')).files.get q
+      = if q ∈ cl' then none else (exec d (saveOps P d (k + 1) (U tr (k + 1)))).files.get q := by
+    rw [opsOf, List.append_assoc, exec_append, exec_append, exec_removes_get, exec_histOps]
+  rw [hfin, exec_saveOps_get]
+  simp only [List.mem_append, mem_epochPaths] at hexq ⊢
+  simp only [present] at hmem
+  generalize bestOf (vals.take k) = b at *
+  generalize bestOf (vals.take (k + 1)) = cb at *
+  have km_inj : ∀ a c, P.mpath a = P.mpath c ↔ a = c := fun a c =>
+    ⟨fun h => hi.km _ _ (by simpa [Params.mpath] using h), fun h => by rw [h]⟩
+  have ko_inj : ∀ a c, P.opath a = P.opath c ↔ a = c := fun a c =>
+    ⟨fun h => hi.ko _ _ (by simpa [Params.opath] using h), fun h => by rw [h]⟩
+  have mo : ∀ a c, P.mpath a ≠ P.opath c := fun a c => by simp [Params.mpath, Params.opath]
+  have om : ∀ a c, P.opath a ≠ P.mpath c := fun a c => by simp [Params.mpath, Params.opath]
+  have mt : ∀ a t, P.mpath a ≠ Path.tmp t := fun a c => by simp [Params.mpath]
+  have ot : ∀ a t, P.opath a ≠ Path.tmp t := fun a c => by simp [Params.opath]
+  grind
+
+/-! ## keep everything: every recorded epoch stays loadable, crash or not -/
+
+theorem load_old_after_save {P : Params} (hi : Inj P) (d0 d d' : Disk) (k : Nat) (s : Nat × Nat)
+    (hd' : d'.files = (exec d (saveOps P d0 (k + 1) s)).files) (j : Nat) (hj : j ≤ k) :
+    loadState P d' j = loadState P d j := by
+  apply loadState_congr
+  intro q hq
+  rw [mem_epochPaths] at hq
+  rw [hd', exec_saveOps_get]
+  rcases hq.2 with rfl | rfl
+  · have a : ¬ P.mpath j = P.opath (k + 1) := by simp [Params.mpath, Params.opath]
+    have b : ¬ P.mpath j = P.mpath (k + 1) := by
+      simp only [Params.mpath, Path.model.injEq]
+      intro h; have := hi.km _ _ h; omega
+    rw [if_neg a, if_neg b, if_neg (by simp [Params.mpath])]
+  · have a : ¬ P.opath j = P.opath (k + 1) := by
+      simp only [Params.opath, Path.optim.injEq]
+      intro h; have := hi.ko _ _ h; omega
+    have b : ¬ P.opath j = P.mpath (k + 1) := by simp [Params.mpath, Params.opath]
+    rw [if_neg a, if_neg b, if_neg (by simp [Params.opath])]
+
+theorem keepall_step {P : Params} (hi : Inj P) (hkeep : P.keepLB = false) {vals : List (Option Int)}
+    {tr : Train} {d : Disk} {k : Nat} (hall : AllLoadable P tr d k) (i : Nat) :
+    cleanSet P vals k d = [] ∧
+      AllLoadable P tr (exec d ((saveOps P d (k + 1) (U tr (k + 1)) ++
+        histOps Quirks.fixed d (k + 1)).take i)) k ∧
+      (8 ≤ i → AllLoadable P tr (exec d ((saveOps P d (k + 1) (U tr (k + 1)) ++
+        histOps Quirks.fixed d (k + 1)).take i)) (k + 1)) := by
+  refine ⟨by simp [cleanSet, hkeep], ?_, ?_⟩
+  · intro j hj1 hjk
+    have hfr := exec_frame_files (fun q => ∃ j, j ≤ k ∧ (q = P.mpath j ∨ q = P.opath j))
+      ((saveOps P d (k + 1) (U tr (k + 1)) ++ histOps Quirks.fixed d (k + 1)).take i) d (by
+        intro op hop
+        have hop := List.mem_of_mem_take hop
+        rw [List.mem_append] at hop
+        rcases hop with hop | hop
+        · have hs := safe_save P d (k + 1) (U tr (k + 1)) op (List.mem_append_left _ hop)
+          rintro q ⟨j', hj', hq⟩ ht
+          have := hs.2 q ht
+          simp only [Params.mpath, Params.opath] at hq this
+          rcases hq with hq | hq <;> subst hq <;> rcases this with h | h | ⟨t, h⟩ <;>
+            first
+            | cases h
+            | (injection h with h; first | (have := hi.km _ _ h; omega) | (have := hi.ko _ _ h; omega))
+        · simp only [histOps, List.mem_cons, List.mem_map] at hop
+          rcases hop with rfl | ⟨l, _, rfl⟩ <;> intro q _ ht <;> exact ht)
+    rw [loadState_congr P j (fun q hq => hfr q ⟨j, hjk, ((mem_epochPaths P j q).1 hq).2⟩)]
+    exact hall j hj1 hjk
+  · intro h8
+    have hlen : (saveOps P d (k + 1) (U tr (k + 1))).length = 8 := by simp [saveOps]
+    have hfiles : (exec d ((saveOps P d (k + 1) (U tr (k + 1)) ++ histOps Quirks.fixed d (k + 1)).take i)).files =
+        (exec d (saveOps P d (k + 1) (U tr (k + 1)))).files := by
+      rw [List.take_append, List.take_of_length_le (by omega), exec_append, histOps_files]
+    intro j hj1 hjk
+    by_cases hj : j ≤ k
+    · rw [load_old_after_save hi d d _ k _ hfiles j hj]
+      exact hall j hj1 hj
+    · have : j = k + 1 := by omega
+      subst this
+      exact load_new_after_save P d d _ k _ hfiles
+
+/-! # Sessions, crash schedules, exactness, keep-everything (proofs of the property theorems) -/
+
+/-! ## crash safety, call by call -/
+
+/-- A checkpoint-first update never refuses. -/
+theorem c16_never_refuses {P : Params} {vals : List (Option Int)} {k : Nat} (hs : SafeAt P vals k)
+    (Q : Quirks) (d : Disk) (s : Nat × Nat) : ∃ main cl, planUpdate Q P vals k d s = .ok (main, cl) := by
+  simp [planUpdate, hs.1]
+
+/-- **Every single mutating call of every update preserves recoverability.** `d` is any disk on
+which a new controller recovers (`Rec`: garbage allowed, so `d` may be the result of any number of
+earlier crashes); the controller has `k` epochs recorded and saves the state `U tr (k+1)`; the
+update is checkpoint-first (`SafeAt`) and the last and best epoch have different names (`Sep`);
+the clean-up may run in any order and over any part `cl'` of the planned set; the process may be
+killed after any number `i` of the mutating calls — each `f.write` of a history line is one. -/
+theorem c16_rec_step {P : Params} (vals : List (Option Int)) (tr : Train) (d : Disk)
+    (hrec : Rec P vals tr d) (k : Nat) (hk : recorded d = some k) (hlt : k < vals.length)
+    (hs : SafeAt P vals k) (hsep : Sep P vals k)
+    (main : List FsOp) (cl : List Path)
+    (hplan : planUpdate Quirks.fixed P vals k d (tr (k + 1) (U tr k)) = .ok (main, cl))
+    (cl' : List Path) (hcl : ∀ p ∈ cl', p ∈ cl) (i : Nat) :
+    Rec P vals tr (exec d ((opsOf main cl').take i)) := by
+  obtain ⟨k', hk'⟩ := hrec
+  have hk' : RecAt P vals tr d k' := hk'
+  have : k = k' := hk'.unique hk
+  subst this
+  obtain ⟨hm, hc⟩ := plan_of_safe hs hplan
+  subst hm; subst hc
+  have h := step_main hk' hlt hs hsep cl' hcl i
+  by_cases h9 : i < 8 + (histOps Quirks.fixed d (k + 1)).length
+  · exact (h.1 h9).rec
+  · exact (h.2 (by omega)).rec
+
+/-- The same when call `i` is executed half-way, PROVIDED it is not the write of a history row
+(`hat`: a history line reaches the file whole or not at all): a torn `torch.save` is harmless. -/
+theorem c16_rec_step_torn {P : Params} (vals : List (Option Int)) (tr : Train) (d : Disk)
+    (hrec : Rec P vals tr d) (k : Nat) (hk : recorded d = some k) (hlt : k < vals.length)
+    (hs : SafeAt P vals k) (hsep : Sep P vals k)
+    (main : List FsOp) (cl : List Path)
+    (hplan : planUpdate Quirks.fixed P vals k d (tr (k + 1) (U tr k)) = .ok (main, cl))
+    (cl' : List Path) (hcl : ∀ p ∈ cl', p ∈ cl) (i : Nat)
+    (hat : ∀ e, (opsOf main cl')[i]? ≠ some (.hwrite (.row e))) :
+    Rec P vals tr (tornDisk tear d (opsOf main cl') i) := by
+  have hbase := c16_rec_step vals tr d hrec k hk hlt hs hsep main cl hplan cl' hcl i
+  unfold tornDisk
+  cases hop : (opsOf main cl')[i]? with
+  | none => simpa using hbase
+  | some op =>
+    have htear : tear op = tearW op := by
+      cases op with
+      | hwrite l =>
+        cases l with
+        | row e => exact absurd hop (hat e)
+        | _ => rfl
+      | _ => rfl
+    simp only [Option.bind_some, htear]
+    cases hw : tearW op with
+    | none => exact hbase
+    | some op' =>
+      obtain ⟨t, rfl⟩ := tearW_some hw
+      obtain ⟨k', hk'⟩ := hbase
+      exact (RecAt_write_tmp hk' t _).rec
+
+/-- The same for a complete update: afterwards `k+1` epochs are recorded. -/
+theorem c16_rec_full {P : Params} (vals : List (Option Int)) (tr : Train) (d : Disk)
+    (k : Nat) (hrec : RecAt P vals tr d k) (hlt : k < vals.length)
+    (hs : SafeAt P vals k) (hsep : Sep P vals k)
+    (main : List FsOp) (cl : List Path)
+    (hplan : planUpdate Quirks.fixed P vals k d (tr (k + 1) (U tr k)) = .ok (main, cl))
+    (cl' : List Path) (hcl : ∀ p ∈ cl', p ∈ cl) :
+    RecAt P vals tr (exec d (opsOf main cl')) (k + 1) := by
+  obtain ⟨hm, hc⟩ := plan_of_safe hs hplan
+  subst hm; subst hc
+  have h := step_main hrec hlt hs hsep cl' hcl
+    ((opsOf (saveOps P d (k + 1) (U tr (k + 1)) ++ histOps Quirks.fixed d (k + 1)) cl').length + 11)
+  rw [List.take_of_length_le (by omega)] at h
+  refine h.2 ?_
+  simp [histOps, histLines]
+  split <;> simp <;> omega
+
+/-! ## sessions: any sequence of crashes and restarts -/
+
+theorem startSession_of_RecAt {P : Params} {vals : List (Option Int)} {tr : Train} {d : Disk} {k : Nat}
+    (h : RecAt P vals tr d k) : startSession P d = some (k, U tr k) := by
+  simp [startSession, h.1, h.2.2.2.1]
+
+theorem updateFull_of_RecAt {P : Params} {vals : List (Option Int)} (hs : SafeFmt P vals) {tr : Train}
+    {d : Disk} {k : Nat} (h : RecAt P vals tr d k) (hlt : k < vals.length) :
+    ∃ d', updateFull Quirks.fixed P vals tr k (U tr k) d = .ok (d', U tr (k + 1)) ∧
+      RecAt P vals tr d' (k + 1) := by
+  have hp := plan_safe (hs k hlt) d (tr (k + 1) (U tr k))
+  refine ⟨_, ?_, c16_rec_full vals tr d k h hlt (hs k hlt) (hs.sep k (by omega)) _ _ hp _ (fun _ h => h)⟩
+  simp [updateFull, hp, U]
+
+theorem runLoop_of_RecAt {P : Params} {vals : List (Option Int)} (hs : SafeFmt P vals) {tr : Train} :
+    ∀ (fuel k : Nat) (d : Disk), RecAt P vals tr d k → k + fuel ≤ vals.length →
+      ∃ d', runLoop Quirks.fixed P vals tr fuel k (U tr k) d = (k + fuel, U tr (k + fuel), d') ∧
+        RecAt P vals tr d' (k + fuel) := by
+  intro fuel
+  induction fuel with
+  | zero => intro k d h _; exact ⟨d, rfl, h⟩
+  | succ f ih =>
+    intro k d h hle
+    obtain ⟨d1, hu, h1⟩ := updateFull_of_RecAt hs h (by omega)
+    obtain ⟨d2, hr, h2⟩ := ih (k + 1) d1 h1 (by omega)
+    refine ⟨d2, ?_, ?_⟩
+    · simp only [runLoop, hu]
+      rw [hr]
+      have : k + 1 + f = k + (f + 1) := by omega
+      rw [this]
+    · have : k + 1 + f = k + (f + 1) := by omega
+      rw [← this]; exact h2
+
+/-- The update of a recoverable disk, killed anywhere (possibly inside a `torch.save`). -/
+theorem updateCrashed_rec {P : Params} {vals : List (Option Int)} (hs : SafeFmt P vals) {tr : Train}
+    {d : Disk} {k : Nat} (h : RecAt P vals tr d k) (hlt : k < vals.length) (i : Nat) (torn : Bool) :
+    Rec P vals tr (updateCrashed Quirks.fixed P vals tr k (U tr k) d i torn) := by
+  have hp := plan_safe (hs k hlt) d (tr (k + 1) (U tr k))
+  simp only [updateCrashed, hp]
+  obtain ⟨k', hk'⟩ := c16_rec_step vals tr d h.rec k h.1 hlt (hs k hlt) (hs.sep k (by omega)) _ _ hp _
+    (fun _ h => h) i
+  cases torn with
+  | false => exact ⟨k', hk'⟩
+  | true => exact (RecAt_tornW (show RecAt P vals tr _ k' from hk')).rec
+
+/-- A session killed anywhere leaves a recoverable disk. -/
+theorem c16_rec_crashSession {P : Params} (vals : List (Option Int)) (hs : SafeFmt P vals) (tr : Train)
+    (d : Disk) (hrec : Rec P vals tr d) (j i : Nat) (torn : Bool) :
+    Rec P vals tr (crashSession Quirks.fixed P vals tr d j i torn) := by
+  obtain ⟨k, hk⟩ := hrec
+  have hk : RecAt P vals tr d k := hk
+  have hle : k + min j (vals.length - k) ≤ vals.length := by
+    have := hk.2.2.1; omega
+  obtain ⟨d', hr, h'⟩ := runLoop_of_RecAt hs (min j (vals.length - k)) k d hk hle
+  simp only [crashSession, startSession_of_RecAt hk, hr]
+  split
+  · rename_i hlt
+    exact updateCrashed_rec hs h' hlt i torn
+  · exact h'.rec
+
+theorem runToEnd_of_RecAt {P : Params} {vals : List (Option Int)} (hs : SafeFmt P vals) {tr : Train}
+    {d : Disk} {k : Nat} (hk : RecAt P vals tr d k) :
+    RecAt P vals tr (runToEnd Quirks.fixed P vals tr d) vals.length := by
+  have hle : k + (vals.length - k) ≤ vals.length := by have := hk.2.2.1; omega
+  obtain ⟨d', hr, h'⟩ := runLoop_of_RecAt hs (vals.length - k) k d hk hle
+  simp only [runToEnd, startSession_of_RecAt hk, hr]
+  have : k + (vals.length - k) = vals.length := by have := hk.2.2.1; omega
+  rw [this] at h'
+  exact h'
+
+/-- The history file of a disk on which all `n ≥ 1` epochs are recorded. -/
+theorem rowsOf_eq {rest : List Line} {es : List Nat} (h : rowsOf rest = some es) :
+    rest = es.map Line.row := by
+  induction rest generalizing es with
+  | nil => simp [rowsOf] at h; subst h; rfl
+  | cons l rest ih =>
+    cases l with
+    | header => simp [rowsOf] at h
+    | torn => simp [rowsOf] at h
+    | row x =>
+      simp only [rowsOf, Option.map_eq_some_iff] at h
+      obtain ⟨es', h1, h2⟩ := h
+      subst h2
+      rw [ih h1]; rfl
+
+theorem csv_of_RecAt {P : Params} {vals : List (Option Int)} {tr : Train} {d : Disk} {n : Nat}
+    (h : RecAt P vals tr d n) (hn : 0 < n) :
+    d.csv = some (Line.header :: (List.range' 1 n).map Line.row) := by
+  have hp := recorded_range (f := d.files) (c := d.csv) h.1
+  have hh := h.2.1
+  match hc : d.csv with
+  | none =>
+    rw [hc] at hp
+    cases n with
+    | zero => omega
+    | succ m => simp [parseCsv, List.range'] at hp
+  | some [] =>
+    rw [hc] at hp
+    cases n with
+    | zero => omega
+    | succ m => simp [parseCsv, List.range'] at hp
+  | some (.header :: rest) =>
+    rw [hc] at hp
+    rw [parseCsv_header] at hp
+    rw [rowsOf_eq hp]
+  | some (.row _ :: _) => rw [hc] at hh; simp [csvHealthy] at hh
+  | some (.torn :: _) => rw [hc] at hh; simp [csvHealthy] at hh
+
+/-- **Resume.** Any number of sessions, each killed after any number of completed updates and any
+number of mutating calls of the next one, followed by a session that runs to the end: the disk is
+recoverable, all epochs are recorded, and the history file is the one of the uninterrupted run. -/
+theorem c16_resume {P : Params} (vals : List (Option Int)) (hs : SafeFmt P vals) (tr : Train) (d : Disk)
+    (hrec : Rec P vals tr d) (sched : List (Nat × Nat × Bool)) :
+    RecAt P vals tr (faulty Quirks.fixed P vals tr d sched) vals.length := by
+  induction sched generalizing d with
+  | nil =>
+    obtain ⟨k, hk⟩ := hrec
+    have hk : RecAt P vals tr d k := hk
+    exact runToEnd_of_RecAt hs hk
+  | cons x rest ih =>
+    obtain ⟨j, i, torn⟩ := x
+    exact ih _ (c16_rec_crashSession vals hs tr d hrec j i torn)
+
+theorem Rec_blank (P : Params) (vals : List (Option Int)) (tr : Train) : RecAt P vals tr Disk.blank 0 := by
+  refine ⟨rfl, rfl, Nat.zero_le _, rfl, ?_⟩
+  simp [bestOf, bestSt, loadState, U]
+
+/-- The history file after any crash/restart sequence equals the uninterrupted run's. -/
+theorem c16_resume_history {P : Params} (vals : List (Option Int)) (hs : SafeFmt P vals) (tr : Train)
+    (hn : 0 < vals.length) (sched : List (Nat × Nat × Bool)) :
+    (faulty Quirks.fixed P vals tr Disk.blank sched).csv =
+      (runToEnd Quirks.fixed P vals tr Disk.blank).csv := by
+  have a := c16_resume vals hs tr Disk.blank (Rec_blank P vals tr).rec sched
+  have b := c16_resume vals hs tr Disk.blank (Rec_blank P vals tr).rec []
+  rw [csv_of_RecAt a hn]
+  have : faulty Quirks.fixed P vals tr Disk.blank [] = runToEnd Quirks.fixed P vals tr Disk.blank := rfl
+  rw [this] at b
+  rw [csv_of_RecAt b hn]
+
+/-! ## exactness of the directory in crash-free runs (keep last and best only) -/
+
+/-- One complete update, clean-up in any order: if the directory held exactly the files of the
+last and best epoch before, it does so afterwards. -/
+theorem c16_exact_step {P : Params} (hi : Inj P) (hkeep : P.keepLB = true) (vals : List (Option Int))
+    (tr : Train) (d : Disk) (k : Nat) (hex : ExactLB P vals d k) (hk : k < vals.length)
+    (main : List FsOp) (cl : List Path)
+    (hplan : planUpdate Quirks.fixed P vals k d (tr (k + 1) (U tr k)) = .ok (main, cl))
+    (cl' : List Path) (hcl : ∀ p, p ∈ cl' ↔ p ∈ cl) :
+    ExactLB P vals (exec d (opsOf main cl')) (k + 1) :=
+  exact_step hi hkeep hex hk (show planUpdate Quirks.fixed P vals k d (U tr (k + 1)) = _ from hplan) cl' hcl
+
+theorem ExactLB_blank (P : Params) (vals : List (Option Int)) : ExactLB P vals Disk.blank 0 := by
+  intro q
+  simp [Disk.blank, Files.get, epochPaths, bestOf, bestSt]
+
+theorem runLoop_exact {P : Params} (hi : Inj P) (hkeep : P.keepLB = true) {vals : List (Option Int)}
+    {tr : Train} :
+    ∀ (fuel k : Nat) (d : Disk), RecAt P vals tr d k → ExactLB P vals d k → k + fuel ≤ vals.length →
+      ∃ d', runLoop Quirks.fixed P vals tr fuel k (U tr k) d = (k + fuel, U tr (k + fuel), d') ∧
+        RecAt P vals tr d' (k + fuel) ∧ ExactLB P vals d' (k + fuel) := by
+  intro fuel
+  induction fuel with
+  | zero => intro k d h he _; exact ⟨d, rfl, h, he⟩
+  | succ f ih =>
+    intro k d h he hle
+    have hp := plan_safe (hi.safeAt vals k) d (tr (k + 1) (U tr k))
+    have h1 := c16_rec_full vals tr d k h (by omega) (hi.safeAt vals k) (hi.sep vals k) _ _ hp _ (fun _ h => h)
+    have he1 := c16_exact_step hi hkeep vals tr d k he (by omega) _ _ hp _ (fun _ => Iff.rfl)
+    obtain ⟨d2, hr, h2, he2⟩ := ih (k + 1) _ h1 he1 (by omega)
+    have hu : updateFull Quirks.fixed P vals tr k (U tr k) d =
+        .ok (exec d (opsOf (saveOps P d (k + 1) (tr (k + 1) (U tr k)) ++ histOps Quirks.fixed d (k + 1))
+          (cleanSet P vals k d)), U tr (k + 1)) := by
+      simp [updateFull, hp, U]
+    have e : k + 1 + f = k + (f + 1) := by omega
+    refine ⟨d2, ?_, ?_, ?_⟩
+    · simp only [runLoop, hu]; rw [hr, e]
+    · rw [← e]; exact h2
+    · rw [← e]; exact he2
+
+/-- **Last-and-best only, no crash:** after every completed update `j` of a run that starts on an
+empty directory, the directory holds exactly the files of the last and of the best epoch. -/
+theorem c16_exact_nocrash {P : Params} (hi : Inj P) (hkeep : P.keepLB = true) (vals : List (Option Int))
+    (tr : Train) (j : Nat) (hj : j ≤ vals.length) :
+    ∃ d, runLoop Quirks.fixed P vals tr j 0 (U tr 0) Disk.blank = (j, U tr j, d) ∧
+      ExactLB P vals d j ∧ RecAt P vals tr d j := by
+  obtain ⟨d, h1, h2, h3⟩ := runLoop_exact hi hkeep j 0 Disk.blank (Rec_blank P vals tr) (ExactLB_blank P vals)
+    (by omega)
+  rw [Nat.zero_add] at h1 h2 h3
+  exact ⟨d, h1, h3, h2⟩
+
+/-! ## keep everything: every recorded epoch stays loadable — with or without crashes -/
+
+/-- Every single mutating call of a keep-everything update preserves `RecAll`. -/
+theorem c16_keepall_step {P : Params} (hi : Inj P) (hkeep : P.keepLB = false) (vals : List (Option Int))
+    (tr : Train) (d : Disk) (k : Nat) (h : RecAll P vals tr d k) (hlt : k < vals.length)
+    (main : List FsOp) (cl : List Path)
+    (hplan : planUpdate Quirks.fixed P vals k d (tr (k + 1) (U tr k)) = .ok (main, cl)) (i : Nat) :
+    ∃ k', RecAll P vals tr (exec d ((opsOf main cl).take i)) k' := by
+  obtain ⟨hm, hc⟩ := plan_of_safe (hi.safeAt vals k) hplan
+  subst hm; subst hc
+  have a := step_main h.1 hlt (hi.safeAt vals k) (hi.sep vals k) _ (fun _ h => h) i
+  have b := keepall_step (vals := vals) hi hkeep h.2 i
+  rw [b.1] at a ⊢
+  simp only [opsOf, List.map_nil, List.append_nil] at a ⊢
+  by_cases h9 : i < 8 + (histOps Quirks.fixed d (k + 1)).length
+  · exact ⟨k, a.1 h9, b.2.1⟩
+  · exact ⟨k + 1, a.2 (by omega), b.2.2 (by omega)⟩
+
+theorem keepall_full {P : Params} (hi : Inj P) (hkeep : P.keepLB = false) {vals : List (Option Int)}
+    {tr : Train} {d : Disk} {k : Nat} (h : RecAll P vals tr d k) (hlt : k < vals.length) :
+    RecAll P vals tr (exec d (opsOf (saveOps P d (k + 1) (tr (k + 1) (U tr k)) ++
+      histOps Quirks.fixed d (k + 1)) (cleanSet P vals k d))) (k + 1) := by
+  have hp := plan_safe (hi.safeAt vals k) d (tr (k + 1) (U tr k))
+  have h1 := c16_rec_full vals tr d k h.1 hlt (hi.safeAt vals k) (hi.sep vals k) _ _ hp _ (fun _ h => h)
+  refine ⟨h1, ?_⟩
+  have b := keepall_step (vals := vals) hi hkeep h.2
+    ((saveOps P d (k + 1) (U tr (k + 1)) ++ histOps Quirks.fixed d (k + 1)).length + 8)
+  rw [List.take_of_length_le (by omega)] at b
+  rw [b.1]
+  simp only [opsOf, List.map_nil, List.append_nil]
+  exact b.2.2 (by omega)
+
+theorem runLoop_keepall {P : Params} (hi : Inj P) (hkeep : P.keepLB = false) {vals : List (Option Int)}
+    {tr : Train} :
+    ∀ (fuel k : Nat) (d : Disk), RecAll P vals tr d k → k + fuel ≤ vals.length →
+      ∃ d', runLoop Quirks.fixed P vals tr fuel k (U tr k) d = (k + fuel, U tr (k + fuel), d') ∧
+        RecAll P vals tr d' (k + fuel) := by
+  intro fuel
+  induction fuel with
+  | zero => intro k d h _; exact ⟨d, rfl, h⟩
+  | succ f ih =>
+    intro k d h hle
+    have hp := plan_safe (hi.safeAt vals k) d (tr (k + 1) (U tr k))
+    obtain ⟨d2, hr, h2⟩ := ih (k + 1) _ (keepall_full hi hkeep h (by omega)) (by omega)
+    have hu : updateFull Quirks.fixed P vals tr k (U tr k) d =
+        .ok (exec d (opsOf (saveOps P d (k + 1) (tr (k + 1) (U tr k)) ++ histOps Quirks.fixed d (k + 1))
+          (cleanSet P vals k d)), U tr (k + 1)) := by
+      simp [updateFull, hp, U]
+    have e : k + 1 + f = k + (f + 1) := by omega
+    refine ⟨d2, ?_, ?_⟩
+    · simp only [runLoop, hu]; rw [hr, e]
+    · rw [← e]; exact h2
+
+theorem RecAll_blank (P : Params) (vals : List (Option Int)) (tr : Train) : RecAll P vals tr Disk.blank 0 :=
+  ⟨Rec_blank P vals tr, fun j h1 h0 => by omega⟩
+
+theorem AllLoadable_write_tmp {P : Params} {tr : Train} {d : Disk} {k : Nat} (h : AllLoadable P tr d k)
+    (t : Nat) (c : Content) : AllLoadable P tr (exec1 d (.write t c)) k := by
+  intro j h1 hk
+  rw [loadState_congr P j (fun q hq => exec1_get d (.write t c) q (by
+    simp only [touches]
+    rw [mem_epochPaths] at hq
+    rcases hq.2 with rfl | rfl <;> simp [Params.mpath, Params.opath]))]
+  exact h j h1 hk
+
+/-- **Keep everything:** after any number of killed sessions and a final one that runs to the end,
+every epoch `1..n` is loadable with exactly the state saved for it. -/
+theorem c16_keepall_loadable {P : Params} (hi : Inj P) (hkeep : P.keepLB = false) (vals : List (Option Int))
+    (tr : Train) (sched : List (Nat × Nat × Bool)) :
+    AllLoadable P tr (faulty Quirks.fixed P vals tr Disk.blank sched) vals.length := by
+  suffices h : ∀ (d : Disk) (k : Nat), RecAll P vals tr d k →
+      RecAll P vals tr (faulty Quirks.fixed P vals tr d sched) vals.length from
+    (h Disk.blank 0 (RecAll_blank P vals tr)).2
+  induction sched with
+  | nil =>
+    intro d k hk
+    have hle : k + (vals.length - k) ≤ vals.length := by have := hk.1.2.2.1; omega
+    obtain ⟨d', hr, h'⟩ := runLoop_keepall hi hkeep (vals.length - k) k d hk hle
+    have : k + (vals.length - k) = vals.length := by have := hk.1.2.2.1; omega
+    rw [this] at h' hr
+    simp only [faulty, runToEnd, startSession_of_RecAt hk.1, hr]
+    exact h'
+  | cons x rest ih =>
+    intro d k hk
+    obtain ⟨j, i, torn⟩ := x
+    have hle : k + min j (vals.length - k) ≤ vals.length := by have := hk.1.2.2.1; omega
+    obtain ⟨d', hr, h'⟩ := runLoop_keepall hi hkeep (min j (vals.length - k)) k d hk hle
+    simp only [faulty, crashSession, startSession_of_RecAt hk.1, hr]
+    split
+    · rename_i hlt
+      have hp := plan_safe (hi.safeAt vals (k + min j (vals.length - k))) d'
+        (tr (k + min j (vals.length - k) + 1) (U tr (k + min j (vals.length - k))))
+      obtain ⟨k', hk'⟩ := c16_keepall_step hi hkeep vals tr d' _ h' hlt _ _ hp i
+      simp only [updateCrashed, hp]
+      cases torn with
+      | false => exact ih _ k' hk'
+      | true =>
+        simp only [if_true]
+        rcases tornDisk_tearW d' (opsOf (saveOps P d' (k + min j (vals.length - k) + 1)
+            (tr (k + min j (vals.length - k) + 1) (U tr (k + min j (vals.length - k)))) ++
+            histOps Quirks.fixed d' (k + min j (vals.length - k) + 1))
+            (cleanSet P vals (k + min j (vals.length - k)) d')) i with h'' | ⟨t, h''⟩ <;> rw [h'']
+        · exact ih _ k' hk'
+        · exact ih _ k' ⟨RecAt_write_tmp hk'.1 t _, AllLoadable_write_tmp hk'.2 t _⟩
+    · exact ih _ _ h'
+
 
 end PdtVerif.Checkpoint
